@@ -23,6 +23,9 @@ Go behaviours mirrored exactly (DESIGN.md Appendix B, "acc language"):
   `loopX_ok`).
 * `builder.operand` yields `ast.Operand(index)` for an index that has no entry in `b.expr` — in
   particular index 0 is always printed as the operand `1`, although the passes name it `_1`.
+* `CanonicalizeOperands` does not replace instruction *outputs*: an output object that is not the
+  first occurrence of its index stays unnamed (`canonOut`); this happens only when two instructions
+  have the same output index, which compiles only with a shift by zero.
 * After the loop: no statement ⇒ the single statement `return 1` (fix F1); the name of the last statement is
   cleared. -/
 namespace P.BuildX
@@ -84,22 +87,36 @@ def opExprX (E : Nat → Expr) : Sem.Op → Except Err Expr
     (`cx` is the counter *after* the increment at the top of the loop body) -/
 def wantX (chain : List Int) (cx : Nat) (out : Nat) : Bool := anon chain out && decide (cx < complexityLimit)
 
+/-- `builder.name` for an output object that is **not** the canonical operand of its index: the
+    passes never named it, so it is `i<index>` -/
+def fallbackS (i : Nat) : String := String.ofList ('i' :: Nat.toDigits 10 i)
+
+/-- is the output object of `inst` the canonical operand of its index?  `CanonicalizeOperands` makes
+    the *first* occurrence of an index (inputs of an instruction before its output, instructions in
+    order) canonical and replaces instruction inputs but **not outputs**; the naming passes name
+    canonical objects only. `seen` = every operand index of the earlier instructions. (For an IR
+    program that compiles and has no shift by zero every output is canonical, `loopX_ok`.) -/
+def canonOut (seen : List Nat) (inst : Inst) : Bool :=
+  !(seen.contains inst.out || (inputs inst.op).contains inst.out)
+
 /-- one iteration of `builder.process`; state = builder state and complexity counter -/
-def stepX (chain : List Int) (full : IR) (st : BS × Nat) (inst : Inst) (next : Option Inst) :
+def stepX (chain : List Int) (full : IR) (seen : List Nat) (st : BS × Nat) (inst : Inst) (next : Option Inst) :
     Except Err (BS × Nat) :=
   let cx := st.2 + 1
+  let canon := canonOut seen inst
+  let nm : Nat → String := if canon then nameS chain else fallbackS
+  let want : Nat → Bool := if canon then wantX chain cx else fun _ => decide (cx < complexityLimit)
   match opExprX st.1.E inst.op with
   | .error e => .error e
   | .ok _ =>
-    .ok (bStep (nameS chain) (wantX chain cx) full st.1 inst next,
-         if inlineCond (wantX chain cx) full inst next then cx else 0)
+    .ok (bStep nm want full st.1 inst next, if inlineCond want full inst next then cx else 0)
 
-def loopX (chain : List Int) (full : IR) : BS × Nat → List Inst → Except Err (BS × Nat)
-  | st, [] => .ok st
-  | st, inst :: r =>
-    match stepX chain full st inst r.head? with
+def loopX (chain : List Int) (full : IR) : List Nat → BS × Nat → List Inst → Except Err (BS × Nat)
+  | _, st, [] => .ok st
+  | seen, st, inst :: r =>
+    match stepX chain full seen st inst r.head? with
     | .error e => .error e
-    | .ok st' => loopX chain full st' r
+    | .ok st' => loopX chain full (inst.out :: (inputs inst.op ++ seen)) st' r
 
 /-- the end of `builder.process`: `return 1` for an empty statement list, then clear the last name -/
 def finish : List Stmt → Script
@@ -113,7 +130,7 @@ def buildX (ir : IR) : Except Err Script :=
   match cAll [] ir with
   | none => .error .compile
   | some p =>
-    match loopX (evaluate p) ir (initBS, 0) ir with
+    match loopX (evaluate p) ir [] (initBS, 0) ir with
     | .error e => .error e
     | .ok st => .ok (finish st.1.stmts)
 
